@@ -205,11 +205,18 @@ func WithTxReadClosers(ctx context.Context, db Database, opts *sql.TxOptions, fn
 	}
 
 	for i := range readers {
+		// Each reader releases its share of the transaction exactly once, no
+		// matter how often it is closed: a second Close of one reader must not
+		// end the transaction under the readers that are still open.
+		var released sync.Once
 		readers[i] = ioutils.NewReadCloserWithCloseHook(readers[i], func() error {
-			if atomic.AddInt64(&remaining, -1) == 0 {
-				return tx.Rollback(ctx)
-			}
-			return nil
+			var err error
+			released.Do(func() {
+				if atomic.AddInt64(&remaining, -1) == 0 {
+					err = tx.Rollback(ctx)
+				}
+			})
+			return err
 		})
 	}
 	return readers, nil
